@@ -35,7 +35,8 @@ t0=$(date +%s)
 # each stops at its first crash, which on a tree that holds the property does not happen
 for j in $(seq 1 "$jobs"); do
   cp -r "$work/corpus" "$work/corpus.$j"
-  "$bin" "$work/corpus.$j" -seed=$((seed * 64 + j)) -max_len=4096 -len_control=0 -max_total_time="$secs" -reload=0 \
+  # (hard wall-clock limit: libFuzzer's own timeout handler allocates and can dead-lock when the alarm fires inside malloc)
+  timeout -s KILL $((secs + 120)) "$bin" "$work/corpus.$j" -seed=$((seed * 64 + j)) -max_len=4096 -len_control=0 -max_total_time="$secs" -reload=0 \
     -rss_limit_mb=3072 -timeout=40 -artifact_prefix="$work/artifacts/" -print_final_stats=1 >"$work/log.$j" 2>&1 &
 done
 wait
